@@ -284,3 +284,63 @@ def probe_past_tombstones(ctx, fx, file, field_key, sentinels, name_rx=r"::inser
                           "gets a second copy" % (field_key, bad[1], tomb), fn.file, bad[1])
     ctx.instance(rule + ".probes", n)
     return n
+
+
+def index_reduction_agreement(ctx, fx, file, field_key, hash_fn_rx=r"::hash_key$|::normalize_hash$", rule="R-SIBLING.index",
+                              only=None):
+    """every function that turns a hash into a slot index must reduce it the same way (`& mask` or `% len`):
+    insert/get/get_mut/remove/resize that disagree look in different slots for the same key."""
+    import re
+    hrx = re.compile(hash_fn_rx)
+    kinds = defaultdict(list)       # op -> [(fn id, line)]
+    for fid in fx.fn_ids(file):
+        if "::tests::" in fid or "{closure" in fid or (only and not only(fid)):
+            continue
+        fn = Fn(fx.raw(fid))
+        src = set()
+        for i in range(1, fn.nargs + 1):
+            if fn.names.get(i) == "hash" and fn.ty(i) == "u64":
+                src.add(i)
+        for b, c in fn.calls():
+            if hrx.search(c["f"]) and fn.ty(c["d"][0]) == "u64":
+                src.add(c["d"][0])
+        src |= marker_loads(fn, field_key)
+        for l in range(fn.nargs + 1, len(fn.locals)):
+            if fn.names.get(l) == "hash" and fn.ty(l) == "u64":
+                src.add(l)
+        if not src:
+            continue
+        # close over moves/copies/casts
+        der = set(src)
+        changed = True
+        while changed:
+            changed = False
+            for loc, st in fn.iter_locs():
+                if st[0] == "a" and len(st[1]) == 1 and st[1][0] not in der:
+                    rv = st[2]
+                    o = rv[1] if rv[0] == "use" else (rv[2] if rv[0] == "cast" else None)
+                    if o is not None and op_local(o) in der and len(op_place(o) or [0]) == 1:
+                        der.add(st[1][0])
+                        changed = True
+        for loc, st in fn.iter_locs():
+            if st[0] == "a" and st[2][0] == "bin" and st[2][1] in ("BitAnd", "Rem"):
+                a, b = st[2][2], st[2][3]
+                if op_local(a) in der and fn.ty(op_local(a)) == "usize" and op_const(b) is None:
+                    kinds[st[2][1]].append((fid, st[3]))
+    total = sum(len(v) for v in kinds.values())
+    if not total:
+        return 0
+    major = max(kinds, key=lambda k: len(kinds[k]))
+    for op, sites in kinds.items():
+        for fid, line in sites:
+            ok = op == major
+            ctx.obligation(rule, fid, "hash reduced with %s" % op, ok,
+                           sample={"fn": fid, "op": op, "line": line, "majority": major})
+            if not ok:
+                ctx.violation(rule, fid, "hash reduced with %s" % op,
+                              "this function maps a hash to a slot with %s while %d sibling sites (%s) use %s: for any table "
+                              "length where the two differ the same key is looked for in different slots"
+                              % (op, len(kinds[major]), ", ".join(sorted({f.rsplit("::", 1)[-1] for f, _ in kinds[major]}))[:120], major),
+                              file, line)
+    ctx.instance(rule + ".sites", total)
+    return total
